@@ -8,7 +8,9 @@ static const char * CP[] = {
 	"\xc2\xa0", "\xc3\xa0", "\xc3\x82", "\xc3\x83", "\xc2\x85", "\xe2\x80\xa8", "\xef\xbf\xbc", "\xef\xbb\xbf", "\xcc\x81", "\xe4\xb8\xad",
 	"\xf0\x9f\x98\x80", "\xf4\x8f\xbf\xbf", "\xc3\xa9", "\xe2\x80\x94", "\xe2\x80\x9c", "\xd7\x90", "\xc2\xab", "\xe2\x82\xac", "\xe1\xb8\xbc", "\xc5\x81",
 	"\xc3\x84", "\xc3\x96", "\xc3\x9f", "\xc2\xbb", "\xe2\x80\x99", "\xe2\x80\xa6", "\xc2\xa9", "\xe0\xa4\x85", "\xf0\x90\x8d\x88", "\xef\xbc\xa1",
-	"\xc2\x80", "\xdf\xbf", "\xe0\xa0\x80", "\xed\x9f\xbf", "\xee\x80\x80", "\xef\xbf\xbd", "\xf0\x90\x80\x80", "\xc2\xad", "\xe2\x80\x8b", "\xe2\x80\x8d"};
+	"\xc2\x80", "\xdf\xbf", "\xe0\xa0\x80", "\xed\x9f\xbf", "\xee\x80\x80", "\xef\xbf\xbd", "\xf0\x90\x80\x80", "\xc2\xad", "\xe2\x80\x8b", "\xe2\x80\x8d",
+	// multi-byte characters whose LAST byte is one that byte-wise code mistakes for a character of its own (A0 = low byte of NBSP, AB/BB = Latin-1 guillemets, 85 = NEL)
+	"\xe2\x9a\xa0", "\xe4\xbd\xa0", "\xf0\x9f\x98\xa0", "\xe2\x80\xa0", "\xc3\xab", "\xd0\xbb", "\xe4\xb8\xab", "\xe2\x80\x85"};
 static const int NCP = sizeof(CP) / sizeof(CP[0]);
 
 // strict validator (independent of the repository's utf8 code): rejects overlongs, surrogates, > U+10FFFF, truncation
